@@ -3,6 +3,7 @@ import itertools
 import os
 
 from harness import common
+from harness import families
 from harness import gen
 from harness import meta
 from harness import semrun
@@ -15,15 +16,23 @@ def Cases(tier):
   per = 7 if tier == 'quick' else 125
   rng = common.Rng(PROP)
   cases = []
-  for i in range(n):
-    profile = gen.CORE if i % 2 == 0 else gen.AGG7
-    prog, query, feats = gen.Generate(rng, profile)
-    if i % 3 == 0:
-      # caller and callee share variable names (injection must not capture)
-      prog = meta.RenameVars(prog, rng)
-      feats = feats + ['shared_var_names']
-    inter = meta.Intermediates(prog)
-    rng.shuffle(inter)
+  n_fam = (2 if tier == 'quick' else 25) * len(families.C08_FAMILIES)
+  for i in range(n + n_fam):
+    if i >= n:
+      # directed families: injection x combines x shared names, key-less
+      # aggregates as intermediates, WITH / grounded chains
+      name, fn = families.C08_FAMILIES[(i - n) % len(families.C08_FAMILIES)]
+      prog, query, feats = fn(rng)
+      inter = [q for q in query if q in meta.Intermediates(prog)]
+    else:
+      profile = gen.CORE if i % 2 == 0 else gen.AGG7
+      prog, query, feats = gen.Generate(rng, profile)
+      if i % 3 == 0:
+        # caller and callee share variable names (injection must not capture)
+        prog = meta.RenameVars(prog, rng)
+        feats = feats + ['shared_var_names']
+      inter = meta.Intermediates(prog)
+      rng.shuffle(inter)
     inter = inter[:3]
     if not inter:
       continue
@@ -32,14 +41,15 @@ def Cases(tier):
                   'meta': {'features': feats + ['base']}})
     plans = [a for a in itertools.product(meta.PLANS, repeat=len(inter))
              if any(x != 'none' for x in a)]
-    if len(plans) > per:
+    if len(plans) > (per if i < n else 4 * per):
       # every single-predicate plan first, then a random sample of the rest
       single = [a for a in plans if sum(x != 'none' for x in a) == 1]
       rest = [a for a in plans if a not in single]
       rng.shuffle(single)
       rng.shuffle(rest)
-      plans = (single + rest)[:per] if tier != 'quick' else (
-          single[:4] + rest[:per - 4])
+      k_ = per if i < n else 4 * per
+      plans = (single + rest)[:k_] if tier != 'quick' else (
+          single[:(4 if i < n else 12)] + rest[:k_ - (4 if i < n else 12)])
     for k, a in enumerate(plans):
       assignment = dict(zip(inter, a))
       v = meta.Annotate(prog, assignment)
@@ -52,7 +62,9 @@ def Cases(tier):
   return cases + semrun.Reproducers(PROP)
 
 
-REQUIRED = ['plan_noinject', 'plan_with', 'plan_nowith', 'plan_ground',
+REQUIRED = ['fam_inject_combine', 'fam_inject_negation', 'fam_shared_local',
+            'fam_keyless_aggregate', 'fam_with_ground_chain',
+            'plan_noinject', 'plan_with', 'plan_nowith', 'plan_ground',
             'inline', 'atom_inline', 'shared_var_names', 'negation',
             'distinct']
 
